@@ -4,6 +4,7 @@ CONSTANTS Deltas = {0, 10, 21}
   MaxChunks = 2
   MaxBytes = 6
   Cap = 32
+  Ignores = {"none"}
   Variant = "limit_client_only"
   Scripts1 = {11, 12, 13}
   Scripts2 = {9}
